@@ -7,7 +7,7 @@
 //! the public API (+ which key generations are alive, observed through `Drop` of the test key).
 //!
 //! ops (X, Y in {A,B}; times in microseconds >= 1):
-//!   config <conf_limit> <integrity_limit> <window>   -> ok STATE          (must be the first op)
+//!   config <conf_limit> <integrity_limit> <window|default>   -> ok STATE   (must be the first op; `default` = Limits::default())
 //!   enc X                                            -> ok <id> <pn> <phase> <gen> STATE | err limit STATE
 //!        (every `enc` consumes one packet id, also a refused one, so that ids are history-independent)
 //!   deliver X <id> <largest_acked> <deadline>        -> ok same|rot <generation> STATE | err decrypt|aead-limit STATE
@@ -248,7 +248,9 @@ impl KeySetC {
 impl Component for KeySetC {
     fn step(&mut self, t: &[&str]) -> String {
         if let ["config", c, i, w] = t {
-            let (Ok(c), Ok(i), Ok(w)) = (c.parse::<u64>(), i.parse::<u64>(), w.parse::<u64>()) else {
+            // window `default` = the production `limited::Limits::default()` (KEY_UPDATE_WINDOW)
+            let w = if *w == "default" { Ok(limited::Limits::default().key_update_window) } else { w.parse::<u64>() };
+            let (Ok(c), Ok(i), Ok(w)) = (c.parse::<u64>(), i.parse::<u64>(), w) else {
                 return "bad-op".into();
             };
             if !self.eps.is_empty() {
